@@ -7,6 +7,7 @@ import (
 	"github.com/taurusgroup/multi-party-sig/pkg/paillier"
 	"github.com/taurusgroup/multi-party-sig/pkg/pedersen"
 	zksch "github.com/taurusgroup/multi-party-sig/pkg/zk/sch"
+	"math/big"
 	"reflect"
 	"strings"
 	"unsafe"
@@ -14,6 +15,7 @@ import (
 	"github.com/cronokirby/saferith"
 	"github.com/taurusgroup/multi-party-sig/internal/round"
 	"github.com/taurusgroup/multi-party-sig/pkg/ecdsa"
+	"github.com/taurusgroup/multi-party-sig/pkg/math/arith"
 	"github.com/taurusgroup/multi-party-sig/pkg/math/curve"
 	"github.com/taurusgroup/multi-party-sig/pkg/math/polynomial"
 	"github.com/taurusgroup/multi-party-sig/pkg/party"
@@ -42,6 +44,7 @@ type cheat struct {
 	newSigma    *zksch.Proof
 	applied     bool // a state alteration (doerner:kinv, frost:degree) was carried out
 	degreeDelta int
+	newPed      *pedersen.Parameters // commit cheat n-giant: the parameters the cheater announces
 }
 
 func typeName(s interface{}) string {
@@ -173,15 +176,32 @@ func (c *cheat) recommit(next round.Session) {
 	ck := cks.MapIndex(self).Interface().(types.RID)
 	if rids := field(next, "RIDs"); rids.IsValid() { // CMP: commit(rid, c, F, A, Y, N, s, t)
 		rid := rids.MapIndex(self).Interface().(types.RID)
-		if what == "rid" {
+		switch what {
+		case "rid":
 			rid = malformRID(rid, how)
-		} else {
+		case "c":
 			ck = malformRID(ck, how)
 		}
 		vss := field(next, "VSSPolynomials").MapIndex(self).Interface()
 		sch := field(next, "SchnorrRand").Interface().(interface{ Commitment() *zksch.Commitment })
 		eg := field(next, "ElGamalPublic").MapIndex(self).Interface()
 		ped := field(next, "Pedersen").MapIndex(self).Interface().(*pedersen.Parameters)
+		if what == "n" {
+			// an oversized modulus (64 KB, odd) with s = 2, t = 3: nothing but the size check stands against it before it is used
+			nb := make([]byte, 64<<10)
+			for i := range nb {
+				nb[i] = byte(37*i + 11)
+			}
+			nb[0] |= 0x80
+			nb[len(nb)-1] |= 1
+			for new(big.Int).Mod(new(big.Int).SetBytes(nb), big.NewInt(3)).Sign() == 0 { // coprime to t = 3
+				nb[len(nb)-1] += 2
+			}
+			// (only what the cheater SENDS carries the big modulus - commitment, opening and the N, s, t of its round 3
+			// broadcast; its own state keeps the real parameters, it does not have to compute with the monster itself)
+			ped = pedersen.New(arith.ModulusFromN(saferith.ModulusFromBytes(nb)), new(saferith.Nat).SetUint64(2), new(saferith.Nat).SetUint64(3))
+			c.newPed = ped
+		}
 		com, dec, err := hf.HashForID(next.SelfID()).Commit(rid, ck, vss, sch.Commitment(), eg, ped.N(), ped.S(), ped.T())
 		if err != nil {
 			return
@@ -241,6 +261,13 @@ func (c *cheat) beforeSend(next round.Session, m *round.Message) {
 		}
 		if f := field(m.Content, "Sigma_i"); f.IsValid() && f.CanSet() {
 			f.Set(reflect.ValueOf(c.newSigma))
+		}
+	}
+	if c.newPed != nil && typeName(m.Content) == "broadcast3" {
+		for name, v := range map[string]interface{}{"N": c.newPed.N(), "S": c.newPed.S(), "T": c.newPed.T()} {
+			if f := field(m.Content, name); f.IsValid() && f.CanSet() {
+				f.Set(reflect.ValueOf(v))
+			}
 		}
 	}
 	if c.newCommit != nil {
